@@ -106,22 +106,528 @@ pub fn c14(a: &Args) -> CaseSet {
             add_chain(&mut cs, ops, "exhaustive-permutations", count); count += 1;
         }
     }
-    // structured and random orders around the word boundaries
-    let lens: Vec<usize> = if a.thorough { vec![9, 17, 31, 32, 33, 34, 63, 64, 65, 66, 67, 127, 128, 129, 130, 191, 192, 193, 194, 257, 513] } else { vec![31, 33, 63, 64, 65, 66, 128, 129, 193] };
-    let reps = a.n.max(1);
-    for &n in &lens {
-        for rep in 0..reps {
-            let m = n - 1;
-            let ops: Vec<usize> = (0..m).map(|i| match rep % 6 {
-                0 => i % 32,                                   // ascending priorities: right to left within blocks
-                1 => 31 - (i % 32),                            // descending: left to right
-                2 => (i / ((m / 32).max(1))).min(31),          // long equal-priority runs, ascending
-                3 => if i % 2 == 0 { (i / 2) % 32 } else { 31 - (i / 2) % 32 },   // alternating
-                4 => { let mid = m / 2; let d = if i > mid { i - mid } else { mid - i }; 31 - (d % 32) } // inside-out
-                _ => r.below(32),
-            }).collect();
-            add_chain(&mut cs, ops, "boundary-lengths", rep + 4 * (n % 2));
+    // structured and random orders around the word boundaries: every pattern x every evaluation route
+    let lens: Vec<usize> = if a.thorough { vec![9, 17, 31, 32, 33, 34, 63, 64, 65, 66, 67, 127, 128, 129, 130, 131, 191, 192, 193, 194, 257, 513] } else { vec![33, 64, 65, 66, 129, 130, 193] };
+    let mk_ops = |r: &mut Rng, m: usize, pattern: usize| -> Vec<usize> { (0..m).map(|i| match pattern {
+        0 => i % 32,                                   // ascending priorities: right to left within blocks
+        1 => 31 - (i % 32),                            // descending: left to right
+        2 => (i / ((m / 32).max(1))).min(31),          // long equal-priority runs, ascending
+        3 => if i % 2 == 0 { (i / 2) % 32 } else { 31 - (i / 2) % 32 },   // alternating
+        4 => { let mid = m / 2; let d = if i > mid { i - mid } else { mid - i }; 31 - (d % 32) } // inside-out
+        5 => if r.chance(1, 8) { 20 + r.below(12) } else { r.below(4) },   // few high-priority islands in a sea of low ones
+        _ => r.below(32),
+    }).collect() };
+    for (li, &n) in lens.iter().enumerate() {
+        for pattern in 0..7 {
+            let ops = mk_ops(&mut r, n - 1, pattern);
+            add_chain(&mut cs, ops, "boundary-lengths", pattern + li);
         }
+    }
+    // random orders, all four routes, at lengths where one level has > 20 and > 128 operators
+    for rep in 0..a.n.max(1) {
+        for &n in &[24usize, 40, 70, 131, 140, 200] {
+            if n > 100 && rep % 2 == 1 && !a.thorough { continue }
+            let ops = mk_ops(&mut r, n - 1, 5 + rep % 2);
+            add_chain(&mut cs, ops, "random-orders", rep + n);
+        }
+    }
+    cs
+}
+
+// ------------------------------------------------------------------------------------------------
+fn lit_rich_cfg(tb: &[OpSpec]) -> GenCfg { let mut c = GenCfg::default_for(tb); c.lit_bias = 8; c.max_chain = 6; c }
+
+fn tree_setup(r: &mut Rng, tb: &[OpSpec], cfg: &GenCfg, maxsize: usize, rc: &RenderCfg) -> (Chain, String, Vec<String>, Term) {
+    let mut size = 1 + r.below(maxsize) as i32;
+    let ch = gen_chain(r, tb, cfg, 0, &mut size);
+    let text = render(&ch, tb, r, rc);
+    let vars = sorted_vars(&ch);
+    let want = ref_chain(&ch, tb, &vars);
+    (ch, text, vars, want)
+}
+fn add_expect(cs: &mut CaseSet, tb: &[OpSpec], prog: Prog, qs: Vec<Query>, note: String, family: &'static str, size: usize, want: &Term, vars: &[String]) -> usize {
+    let (tb2, want2, vars2, qs2) = (tb.to_vec(), want.clone(), vars.to_vec(), qs.clone());
+    cs.add(tb, prog, qs, note, family, size, move |obs| expect_value(&tb2, &want2, &vars2, obs, &qs2))
+}
+
+/// C02: folded / unfolded / re-folded flat and deep forms of literal-rich trees
+pub fn c02(a: &Args) -> CaseSet {
+    let mut cs = CaseSet::default();
+    let mut r = Rng::new(a.seed ^ 0x02);
+    let t0 = std_tables()[0].clone();
+    for text in ["x^2/4/2", "x*2-1-3", "x*8+2+3", "1.0 * 3 * 2 * x / 2 / 3", "x / 2 / 3", "x * 2 / 3", "2*3*x*4*5", "1-2-3-x", "x-1-2-3", "2^3^x", "x+1+2*3+4", "sin(2+3)*x+1+2", "-(2+3)+x+4+5", "x*0.5*2+3+4-1-2", "x/y/2/4*2*4"] {
+        for prog in [Prog::Flat(text.into()), Prog::FlatWo(text.into()), Prog::Deep(text.into()), Prog::Compile(Box::new(Prog::Compile(Box::new(Prog::FlatWo(text.into()))))), Prog::ToFlat(Box::new(Prog::Deep(text.into())))] {
+            let nv = if text.contains('y') { 2 } else { 1 };
+            cs.add(&t0, prog, vec![Query::Vars, Query::Eval(nv), Query::Unparse], format!("corpus: {text}"), "corpus", 4, |_| (None, String::new()));
+        }
+    }
+    for i in 0..a.n {
+        let tb = pick_table(&mut r, a);
+        let cfg = lit_rich_cfg(&tb);
+        let (ch, text, vars, want) = tree_setup(&mut r, &tb, &cfg, if a.thorough && i % 8 == 0 { 60 } else { 12 }, &RenderCfg::plain());
+        let nv = vars.len();
+        let progs = [Prog::Flat(text.clone()), Prog::FlatWo(text.clone()), Prog::Deep(text.clone()),
+                     Prog::Compile(Box::new(Prog::Compile(Box::new(Prog::FlatWo(text.clone()))))), Prog::Compile(Box::new(Prog::Flat(text.clone()))),
+                     Prog::ToFlat(Box::new(Prog::Deep(text.clone()))), Prog::ToDeep(Box::new(Prog::FlatWo(text.clone())))];
+        let pick = [i % 7, (i / 7 + 2) % 7, (i + 4) % 7];
+        for k in pick { add_expect(&mut cs, &tb, progs[k].clone(), vec![Query::Vars, Query::Eval(nv), Query::Unparse], text.clone(), "literal-rich-tree", n_operands(&ch), &want, &vars); }
+    }
+    cs
+}
+
+/// token soup over a table: mostly passes the pair rules
+fn soup(r: &mut Rng, tb: &[OpSpec], len: usize) -> String {
+    let mut toks: Vec<String> = vec![];
+    for _ in 0..len {
+        let c = r.below(12);
+        toks.push(match c { 0 | 1 => ["1", "2", "3.5"][r.below(3)].to_string(), 2 | 3 => ["x", "y", "z"][r.below(3)].to_string(), 4 => "(".into(), 5 => ")".into(), 6 => ",".into(), _ => tb[r.below(tb.len())].repr.clone() });
+    }
+    toks.join(" ")
+}
+/// C03: conversion histories, operator listings, and sloppy strings accepted by both parsers
+pub fn c03(a: &Args) -> CaseSet {
+    let mut cs = CaseSet::default();
+    let mut r = Rng::new(a.seed ^ 0x03);
+    let t0 = std_tables()[0].clone();
+    for text in ["* (a+b)(c+d)", "/ 1 2 * 3", "+ 1", "- - x", "(x)", "((x+1))", "sin(y+x*2+3)", "* 2 3", "x * / 2", "2 (3)", "-(-(x))", "sin sin (x) y"] {
+        for prog in [Prog::Flat(text.into()), Prog::Deep(text.into()), Prog::ToFlat(Box::new(Prog::Deep(text.into()))), Prog::ToDeep(Box::new(Prog::Flat(text.into())))] {
+            cs.add(&t0, prog, vec![Query::Vars, Query::Relaxed(4), Query::OpReprs], format!("corpus: {text}"), "corpus", 3, |_| (None, String::new()));
+        }
+    }
+    for i in 0..a.n {
+        let tb = pick_table(&mut r, a);
+        let cfg = GenCfg::default_for(&tb);
+        let rc = RenderCfg { spaces: false, braces: r.chance(1, 3), redundant_parens: r.chance(1, 3), call_space: false };
+        let (ch, text, vars, want) = tree_setup(&mut r, &tb, &cfg, if a.thorough && i % 8 == 0 { 50 } else { 12 }, &rc);
+        let nv = vars.len();
+        // a random conversion history of length 0..6
+        let mut p = match r.below(3) { 0 => Prog::Flat(text.clone()), 1 => Prog::FlatWo(text.clone()), _ => Prog::Deep(text.clone()) };
+        for _ in 0..r.below(7) { p = if r.chance(1, 2) { Prog::ToDeep(Box::new(p)) } else { Prog::ToFlat(Box::new(p)) }; }
+        add_expect(&mut cs, &tb, p, vec![Query::Vars, Query::Eval(nv), Query::BinReprs, Query::UnReprs, Query::OpReprs], text.clone(), "conversion-history", n_operands(&ch), &want, &vars);
+    }
+    // long single levels: more than 20 operators on one parenthesis level with few distinct priorities
+    for i in 0..(a.n / 8).max(4) {
+        let tb = std_tables()[if i % 2 == 0 { 1 } else { 3 }].clone();
+        let bins: Vec<usize> = (0..tb.len()).filter(|k| tb[*k].bin.is_some() && !is_alpha_name(&tb[*k].repr)).collect();
+        let m = 21 + r.below(if a.thorough { 60 } else { 25 });
+        let rest: Vec<(usize, Atom)> = (0..m).map(|j| (*r.pick(&bins), if r.chance(1, 3) { Atom::Lit(format!("{}", j % 9 + 1)) } else { Atom::Var(["x", "y", "z"][r.below(3)].to_string()) })).collect();
+        let ch = Chain { first: Box::new(Atom::Var("x".into())), rest };
+        let text = render(&ch, &tb, &mut r, &RenderCfg::plain());
+        let vars = sorted_vars(&ch); let want = ref_chain(&ch, &tb, &vars); let nv = vars.len();
+        for p in [Prog::Deep(text.clone()), Prog::ToFlat(Box::new(Prog::Deep(text.clone()))), Prog::Flat(text.clone()), Prog::ToDeep(Box::new(Prog::FlatWo(text.clone())))] {
+            add_expect(&mut cs, &tb, p, vec![Query::Vars, Query::Eval(nv)], text.clone(), "long-level", m + 1, &want, &vars);
+        }
+    }
+    // sloppy strings: only the agreement of the two parsers is the oracle
+    for i in 0..a.n {
+        let tb = if i % 2 == 0 { t0.clone() } else { pick_table(&mut r, a) };
+        let text = if i % 3 == 0 {
+            // damage a well formed text by deleting one token-ish character
+            let cfg = GenCfg::default_for(&tb);
+            let (_, t, _, _) = tree_setup(&mut r, &tb, &cfg, 8, &RenderCfg { spaces: true, braces: false, redundant_parens: true, call_space: false });
+            let cs_: Vec<char> = t.chars().collect(); let k = r.below(cs_.len()); cs_.iter().enumerate().filter(|(j, _)| *j != k).map(|(_, c)| *c).collect()
+        } else { let len = 1 + r.below(7); soup(&mut r, &tb, len) };
+        let qs = vec![Query::Vars, Query::Relaxed(3), Query::Eval(3), Query::Eval(2), Query::Eval(1), Query::Eval(0)];
+        let i1 = cs.add(&tb, Prog::Flat(text.clone()), qs.clone(), text.clone(), "sloppy-string", 2, |_| (None, String::new()));
+        let i2 = cs.add(&tb, Prog::Deep(text.clone()), qs.clone(), text.clone(), "sloppy-string", 2, |_| (None, String::new()));
+        let i3 = cs.add(&tb, Prog::ToFlat(Box::new(Prog::Deep(text.clone()))), qs.clone(), text.clone(), "sloppy-string", 2, |_| (None, String::new()));
+        let accepted = |o: &Vec<Obs>| matches!(o[0], Obs::S(_));
+        if accepted(&cs.cases[i1].obs) && accepted(&cs.cases[i2].obs) {
+            let norm = |o: &Obs| match o { Obs::T(t) => Obs::T(anf(t, &tb)), x => x.clone() };
+            let same = cs.cases[i1].obs.iter().zip(&cs.cases[i2].obs).all(|(x, y)| norm(x) == norm(y)) && cs.cases[i3].obs.iter().zip(&cs.cases[i2].obs).all(|(x, y)| norm(x) == norm(y));
+            let note = if same { String::new() } else { format!("flat {:?} vs deep {:?} vs deep->flat {:?}", cs.cases[i1].obs.iter().map(pretty_obs).collect::<Vec<_>>(), cs.cases[i2].obs.iter().map(pretty_obs).collect::<Vec<_>>(), cs.cases[i3].obs.iter().map(pretty_obs).collect::<Vec<_>>()) };
+            for k in [i1, i2, i3] { cs.cases[k].oracle_ok = Some(same); cs.cases[k].oracle_note = note.clone(); cs.cases[k].family = "sloppy-both-accept"; }
+        }
+    }
+    cs
+}
+
+/// C04: variable names, order, binding, arity
+pub fn c04(a: &Args) -> CaseSet {
+    let mut cs = CaseSet::default();
+    let mut r = Rng::new(a.seed ^ 0x04);
+    let tb = std_tables()[0].clone();
+    let bare = ["x","X","y","Y","_","_a","a_","a1","A1","alpha","α","β","Ω","ω","xα","αx","zz","Z","sinx","cosy","e1","PI2","x_1","x_10","x_2","ς","Αα","b","c","d","f","g","h","k","m","n","p","q"];
+    let braced = [" x","x ","1","1x","+","a+b","sin","(","{","👍","x y","","  ","E","π","a,b","9.5","-","é","日本"];
+    for _ in 0..a.n {
+        let k = 1 + r.below(if a.thorough { 40 } else { 22 });
+        let mut names: Vec<(String, String)> = vec![];
+        for _ in 0..k {
+            if r.chance(1, 3) { let b = braced[r.below(braced.len())]; names.push((b.to_string(), format!("{{{b}}}"))); }
+            else { let b = bare[r.below(bare.len())]; names.push((b.to_string(), if r.chance(1, 3) { format!("{{{b}}}") } else { b.to_string() })); }
+        }
+        let m = 1 + r.below(30);
+        let mut text = String::new(); let mut occ: Vec<String> = vec![];
+        for i in 0..m { let (nm, rend) = &names[r.below(names.len())]; if i > 0 { text.push_str([" + ", " * ", " - ", "/"][r.below(4)]); } text.push_str(rend); occ.push(nm.clone()); }
+        let mut want_vars = occ.clone(); want_vars.sort(); want_vars.dedup();
+        let n = want_vars.len();
+        // reference value through the tree of the same text
+        let ops_in: Vec<usize> = { let mut v = vec![]; let mut rest = text.as_str(); while let Some(p) = rest.find(|c| "+*-/".contains(c)) { let c = rest[p..].chars().next().unwrap();
+            // operators inside braces do not count
+            let before = &rest[..p]; let open = before.matches('{').count() > before.matches('}').count();
+            if !open { v.push("+-*/".find(c).unwrap()); }
+            rest = &rest[p + c.len_utf8()..]; } v };
+        let _ = ops_in;
+        let prog = match r.below(3) { 0 => Prog::Flat(text.clone()), 1 => Prog::Deep(text.clone()), _ => Prog::ToDeep(Box::new(Prog::FlatWo(text.clone()))) };
+        let mut qs = vec![Query::Vars];
+        for len in 0..n + 3 { qs.push(Query::Eval(len)); qs.push(Query::Relaxed(len)); qs.push(Query::EvalVec(len)); }
+        let (wv, occ2) = (want_vars.clone(), occ.clone());
+        let qs2 = qs.clone();
+        cs.add(&tb, prog, qs, text.clone(), "names-and-arity", m, move |obs| {
+            // oracle: names sorted+distinct; arity pattern; the variable leaves of the value, in text order, are the indices of the names
+            fn leaves(t: &Term, out: &mut Vec<usize>) { match t { Term::Var(i) => out.push(*i), Term::Un(_, a) => leaves(a, out), Term::Bin(_, a, b) => { leaves(a, out); leaves(b, out) } _ => () } }
+            let want_leaves: Vec<usize> = occ2.iter().map(|o| wv.iter().position(|v| v == o).unwrap()).collect();
+            for (q, o) in qs2.iter().zip(obs) {
+                let bad = match (q, o) {
+                    (Query::Vars, Obs::S(v)) => *v != wv,
+                    (Query::Vars, _) => true,
+                    (Query::Eval(l), Obs::T(t)) | (Query::Relaxed(l), Obs::T(t)) => { let mut lv = vec![]; leaves(t, &mut lv); lv != want_leaves || (matches!(q, Query::Eval(_)) && *l != wv.len()) || *l < wv.len() }
+                    (Query::EvalVec(l), Obs::TC(t, _)) => { let mut lv = vec![]; leaves(t, &mut lv); lv != want_leaves || *l != wv.len() }
+                    (Query::Eval(l), Obs::E) | (Query::EvalVec(l), Obs::E) => *l == wv.len(),
+                    (Query::Relaxed(l), Obs::E) => *l >= wv.len(),
+                    (_, Obs::Skip) => false,
+                    _ => true,
+                };
+                if bad { return (Some(false), format!("{q:?} -> {}", pretty_obs(o))) }
+            }
+            (Some(true), String::new())
+        });
+    }
+    cs
+}
+
+/// C07: single-point damages of well-formed texts must be rejected by every parser
+pub fn c07(a: &Args) -> CaseSet {
+    let mut cs = CaseSet::default();
+    let mut r = Rng::new(a.seed ^ 0x07);
+    let t0 = std_tables()[0].clone();
+    for text in ["max(1, min(2,3)))", "max(1, min(2,3)", "", "   ", "1+", "(1+2", "1+2)", "1 2", "x y", "1+$", "2 (3)", "()", "sin", "1 + * 2", "a12 (1)", "fi.g", "3.4.", "1..2", ")(", "(1)(2)", "1 + (2))("] {
+        for prog in [Prog::Flat(text.into()), Prog::FlatWo(text.into()), Prog::Deep(text.into())] {
+            cs.add(&t0, prog, vec![Query::Vars], format!("corpus: {text:?}"), "corpus", 2, |obs| (Some(obs[0] == Obs::E), format!("accepted or crashed: {}", pretty_obs(&obs[0]))));
+        }
+    }
+    for _ in 0..a.n {
+        let tb = pick_table(&mut r, a);
+        let mut cfg = GenCfg::default_for(&tb); cfg.call_form = r.chance(1, 4);
+        let rc = RenderCfg { spaces: false, braces: r.chance(1, 4), redundant_parens: r.chance(1, 3), call_space: false };
+        let (_, plain, _, _) = tree_setup(&mut r, &tb, &cfg, 10, &rc);
+        let chars: Vec<char> = plain.chars().collect();
+        let mut damaged: Vec<(&'static str, String)> = vec![];
+        let parens: Vec<usize> = chars.iter().enumerate().filter(|(_, c)| **c == '(' || **c == ')').map(|(i, _)| i).collect();
+        if !parens.is_empty() { let i = *r.pick(&parens); let mut t: String = chars[..i].iter().collect(); t.extend(chars[i + 1..].iter()); damaged.push(("delete-paren", t)); }
+        // insert a parenthesis at a token boundary (never inside a {braced} name)
+        let boundaries: Vec<usize> = (0..=chars.len()).filter(|&p| {
+            let before: String = chars[..p].iter().collect(); before.matches('{').count() == before.matches('}').count()
+            && !(p > 0 && p < chars.len() && (chars[p - 1].is_alphanumeric() || chars[p - 1] == '.' || chars[p-1] == '_') && (chars[p].is_alphanumeric() || chars[p] == '.' || chars[p] == '_'))
+            && !(p > 0 && p < chars.len() && !chars[p-1].is_alphanumeric() && !chars[p].is_alphanumeric() && !" (){},".contains(chars[p-1]) && !" (){},".contains(chars[p]))
+        }).collect();
+        let pos = *r.pick(&boundaries);
+        for ins in ["(", ")"] { let mut t: String = chars[..pos].iter().collect(); t.push_str(ins); t.extend(chars[pos..].iter()); damaged.push(("insert-paren", t)); }
+        for ins in ["\\", "$", "?", "\u{7}", "»"] { let mut t: String = chars[..pos].iter().collect(); t.push_str(ins); t.extend(chars[pos..].iter()); damaged.push(("insert-illegal-char", t)); }
+        let binops: Vec<&OpSpec> = tb.iter().filter(|o| o.bin.is_some()).collect();
+        damaged.push(("append-binop", format!("{plain} {}", r.pick(&binops).repr)));
+        damaged.push(("extra-operand-after", format!("{plain} 7")));
+        damaged.push(("extra-operand-before", format!("7 {plain}")));
+        damaged.push(("blank", " ".repeat(r.below(4))));
+        for (kind, t) in damaged {
+            // "7 -x" or "7 +x" is a legitimate expression when the text starts with a sign that is also binary
+            if kind == "extra-operand-before" { let first = plain.trim_start().chars().next().unwrap_or(' '); if tb.iter().any(|o| o.bin.is_some() && o.repr.starts_with(first)) { continue } }
+            let prog = match r.below(3) { 0 => Prog::Flat(t.clone()), 1 => Prog::FlatWo(t.clone()), _ => Prog::Deep(t.clone()) };
+            cs.add(&tb, prog, vec![Query::Vars], format!("[{kind}] {t:?} (from {plain:?})"), kind, 2, |obs| (Some(obs[0] == Obs::E), format!("accepted or crashed: {}", pretty_obs(&obs[0]))));
+        }
+    }
+    cs
+}
+
+/// C08: call form op(a, b) == ((a) op (b)) at any nesting
+pub fn c08(a: &Args) -> CaseSet {
+    let mut cs = CaseSet::default();
+    let mut r = Rng::new(a.seed ^ 0x08);
+    let t0 = std_tables()[0].clone();
+    for text in ["max(1, min(2,3))", "max(min(1,2), 3)", "max(1, (2+3))", "atan2(x, max(y, atan2(1, 2)))", "sin(max(1, max(2, max(3, x))))", "max((1), ((2)))", "1+max(2,3)*4", "max(1,2)max(3,4)", "-max(-1, -atan2(x, -y))", "max(max(1,2), max(3,4))"] {
+        for prog in [Prog::Flat(text.into()), Prog::Deep(text.into())] {
+            cs.add(&t0, prog, vec![Query::Vars, Query::Relaxed(2)], format!("corpus: {text}"), "corpus", 3, |_| (None, String::new()));
+        }
+    }
+    for i in 0..a.n {
+        let tb = if r.chance(2, 3) { [std_tables()[0].clone(), std_tables()[1].clone(), std_tables()[2].clone()][r.below(3)].clone() } else { random_table(&mut r) };
+        if !tb.iter().any(|o| o.bin.is_some() && is_alpha_name(&o.repr)) { continue }
+        let mut cfg = GenCfg::default_for(&tb); cfg.call_form = true; cfg.max_depth = 6;
+        let mut size = 2 + r.below(if a.thorough && i % 5 == 0 { 40 } else { 12 }) as i32;
+        let ch = gen_chain(&mut r, &tb, &cfg, 0, &mut size);
+        let rc = RenderCfg { spaces: r.chance(1, 2), braces: false, redundant_parens: r.chance(1, 3), call_space: r.chance(1, 2) };
+        let text = render(&ch, &tb, &mut r, &rc);
+        let vars = sorted_vars(&ch); let want = ref_chain(&ch, &tb, &vars); let nv = vars.len();
+        let infix = render(&uncall_chain(&ch), &tb, &mut r, &RenderCfg::plain());
+        let family = if text.contains(',') { "call-form" } else { "no-call" };
+        for prog in [if i % 2 == 0 { Prog::Flat(text.clone()) } else { Prog::Deep(text.clone()) }, Prog::FlatWo(infix.clone())] {
+            add_expect(&mut cs, &tb, prog, vec![Query::Vars, Query::Eval(nv)], format!("{text}   ==   {infix}"), family, n_operands(&ch), &want, &vars);
+        }
+    }
+    cs
+}
+
+// ---- reference for histories: compose surface trees
+fn group(c: &Chain) -> Atom { Atom::Group(vec![], c.clone()) }
+fn subs_chain(c: &Chain, map: &[(String, Chain)]) -> Chain { Chain { first: Box::new(subs_atom(&c.first, map)), rest: c.rest.iter().map(|(o, a)| (*o, subs_atom(a, map))).collect() } }
+fn subs_atom(a: &Atom, map: &[(String, Chain)]) -> Atom {
+    match a {
+        Atom::Var(s) => match map.iter().find(|(v, _)| v == s) { Some((_, c)) => group(c), None => a.clone() },
+        Atom::Un(u, a) => Atom::Un(u.clone(), Box::new(subs_atom(a, map))),
+        Atom::Group(u, c) => Atom::Group(u.clone(), subs_chain(c, map)),
+        Atom::Call(o, x, y) => Atom::Call(*o, subs_chain(x, map), subs_chain(y, map)),
+        x => x.clone(),
+    }
+}
+
+/// C10: histories of operate_unary / operate_binary over pools of flat and deep expressions
+pub fn c10(a: &Args) -> CaseSet {
+    let mut cs = CaseSet::default();
+    let mut r = Rng::new(a.seed ^ 0x10);
+    for i in 0..a.n {
+        let tb = pick_table(&mut r, a);
+        let mut cfg = GenCfg::default_for(&tb); cfg.vars = ["x","y","z","w","u","v"].iter().map(|s| s.to_string()).collect(); cfg.lit_bias = 4;
+        let deep = r.chance(1, 2);
+        let mut pool: Vec<(Chain, Prog)> = vec![];
+        for _ in 0..3 {
+            let (ch, text, _, _) = tree_setup(&mut r, &tb, &cfg, 6, &RenderCfg::plain());
+            pool.push((ch, if deep { Prog::Deep(text) } else if r.chance(1, 2) { Prog::Flat(text) } else { Prog::FlatWo(text) }));
+        }
+        let steps = 1 + r.below(if a.thorough { 12 } else { 6 });
+        let bins: Vec<usize> = (0..tb.len()).filter(|k| tb[*k].bin.is_some()).collect();
+        let uns: Vec<usize> = (0..tb.len()).filter(|k| tb[*k].unary).collect();
+        for _ in 0..steps {
+            let (i1, i2) = (r.below(pool.len()), r.below(pool.len()));
+            if r.chance(2, 3) || uns.is_empty() {
+                let op = *r.pick(&bins);
+                let nc = Chain { first: Box::new(group(&pool[i1].0)), rest: vec![(op, group(&pool[i2].0))] };
+                let np = Prog::Bin(tb[op].repr.clone(), Box::new(pool[i1].1.clone()), Box::new(pool[i2].1.clone()));
+                pool.push((nc, np));
+            } else {
+                let op = *r.pick(&uns);
+                let nc = Chain { first: Box::new(Atom::Group(vec![op], pool[i1].0.clone())), rest: vec![] };
+                pool.push((nc, Prog::Un(tb[op].repr.clone(), Box::new(pool[i1].1.clone()))));
+            }
+        }
+        let (ch, prog) = pool.last().unwrap().clone();
+        let vars = sorted_vars(&ch); let want = ref_chain(&ch, &tb, &vars); let nv = vars.len();
+        add_expect(&mut cs, &tb, prog, vec![Query::Vars, Query::Eval(nv), Query::Eval(nv + 1), Query::Relaxed(nv + 1)], format!("history of {steps} applications"), "apply-history", n_operands(&ch), &want, &vars);
+        if i % 10 == 0 {
+            // unknown operator name is an error
+            let p = Prog::Un("nosuchop".into(), Box::new(pool[0].1.clone()));
+            cs.add(&tb, p, vec![Query::Vars], "unknown unary name".into(), "unknown-name", 2, |obs| (Some(obs[0] == Obs::E), pretty_obs(&obs[0])));
+            let p = Prog::Bin("§§".into(), Box::new(pool[0].1.clone()), Box::new(pool[1].1.clone()));
+            cs.add(&tb, p, vec![Query::Vars], "unknown binary name".into(), "unknown-name", 2, |obs| (Some(obs[0] == Obs::E), pretty_obs(&obs[0])));
+        }
+    }
+    cs
+}
+
+/// C11: simultaneous substitution
+pub fn c11(a: &Args) -> CaseSet {
+    let mut cs = CaseSet::default();
+    let mut r = Rng::new(a.seed ^ 0x11);
+    let t0 = std_tables()[0].clone();
+    for (e, m) in [("x^2/y/2", vec![("y", "4")]), ("x+y", vec![("x", "y"), ("y", "x")]), ("x*2", vec![("x", "x+1")]), ("x+y*z", vec![]), ("sin(x)+1+2", vec![("x", "3")])] {
+        for deep in [false, true] {
+            let mk = |t: &str| if deep { Prog::Deep(t.into()) } else { Prog::Flat(t.into()) };
+            let p = Prog::Subs(Box::new(mk(e)), m.iter().map(|(v, t)| (v.to_string(), mk(t))).collect());
+            cs.add(&t0, p, vec![Query::Vars, Query::Relaxed(3), Query::Unparse], format!("corpus: {e} {m:?}"), "corpus", 3, |_| (None, String::new()));
+        }
+    }
+    for _ in 0..a.n {
+        let tb = pick_table(&mut r, a);
+        let mut cfg = GenCfg::default_for(&tb); cfg.lit_bias = 3;
+        let (e, te, vs, _) = tree_setup(&mut r, &tb, &cfg, 10, &RenderCfg::plain());
+        if vs.is_empty() { continue }
+        let deep = r.chance(1, 2);
+        let mk = |t: String, r: &mut Rng| if deep { Prog::Deep(t) } else if r.chance(1, 2) { Prog::Flat(t) } else { Prog::FlatWo(t) };
+        let mut map: Vec<(String, Chain)> = vec![]; let mut pmap: Vec<(String, Prog)> = vec![];
+        for v in &vs {
+            if r.chance(2, 3) {
+                let rep = match r.below(5) {
+                    0 => Chain { first: Box::new(Atom::Var(vs[r.below(vs.len())].clone())), rest: vec![] },
+                    1 => { let b: Vec<usize> = (0..tb.len()).filter(|k| tb[*k].bin.is_some()).collect(); Chain { first: Box::new(Atom::Var(v.clone())), rest: vec![(*r.pick(&b), Atom::Lit("1".into()))] } }
+                    2 => Chain { first: Box::new(Atom::Lit("7".into())), rest: vec![] },
+                    _ => { let mut sz = r.below(5) as i32; gen_chain(&mut r, &tb, &cfg, 1, &mut sz) }
+                };
+                let t = render(&rep, &tb, &mut r, &RenderCfg::plain());
+                pmap.push((v.clone(), mk(t, &mut r))); map.push((v.clone(), rep));
+            }
+        }
+        let mut want_chain = subs_chain(&e, &map);
+        let mut prog = Prog::Subs(Box::new(mk(te.clone(), &mut r)), pmap.clone());
+        // repeated substitution
+        if r.chance(1, 3) { want_chain = subs_chain(&want_chain, &map); prog = Prog::Subs(Box::new(prog), pmap.clone()); }
+        let wv = sorted_vars(&want_chain); let want = ref_chain(&want_chain, &tb, &wv); let nv = wv.len();
+        add_expect(&mut cs, &tb, prog, vec![Query::Vars, Query::Eval(nv)], format!("{te} with {:?}", pmap.iter().map(|(v, p)| format!("{v}->{}", pretty_prog(p))).collect::<Vec<_>>()), "simultaneous-subs", n_operands(&want_chain), &want, &wv);
+    }
+    cs
+}
+
+/// C12: printed expressions parse back (flat text identity; deep text reparses to the same function)
+pub fn c12(a: &Args) -> CaseSet {
+    let mut cs = CaseSet::default();
+    let mut r = Rng::new(a.seed ^ 0x12);
+    for i in 0..a.n {
+        let tb = pick_table(&mut r, a);
+        let mut cfg = GenCfg::default_for(&tb); cfg.lit_bias = 3;
+        let rc = RenderCfg { spaces: r.chance(1, 2), braces: r.chance(1, 2), redundant_parens: r.chance(1, 3), call_space: false };
+        let (ch, text, vars, want) = tree_setup(&mut r, &tb, &cfg, 10, &rc);
+        let nv = vars.len();
+        // flat expression prints its source text
+        let t2 = text.clone();
+        cs.add(&tb, Prog::Flat(text.clone()), vec![Query::Unparse], text.clone(), "flat-text-identity", n_operands(&ch), move |obs| (Some(obs[0] == Obs::Str(t2.clone())), pretty_obs(&obs[0])));
+        // derived expressions: conversions and one operator application, then print and parse again
+        let mut base = match i % 3 { 0 => Prog::Deep(text.clone()), 1 => Prog::ToDeep(Box::new(Prog::Flat(text.clone()))), _ => Prog::ToFlat(Box::new(Prog::Deep(text.clone()))) };
+        let (mut wchain, mut wvars, mut wterm) = (ch.clone(), vars.clone(), want.clone());
+        if r.chance(1, 2) {
+            let uns: Vec<usize> = (0..tb.len()).filter(|k| tb[*k].unary).collect();
+            if !uns.is_empty() { let u = *r.pick(&uns); base = Prog::Un(tb[u].repr.clone(), Box::new(base)); wchain = Chain { first: Box::new(Atom::Group(vec![u], wchain)), rest: vec![] }; wvars = sorted_vars(&wchain); wterm = ref_chain(&wchain, &tb, &wvars); }
+        }
+        let _ = nv;
+        let re = if r.chance(1, 2) { Prog::ReFlat(Box::new(base.clone())) } else { Prog::ReDeep(Box::new(base.clone())) };
+        // the property only speaks about expressions whose printed literals are literals: when folding produced a
+        // non-literal value the printed text contains the marker and the round trip is out of scope (oracle skipped)
+        let qs = vec![Query::Vars, Query::Eval(wvars.len())];
+        let (tb2, qs2, wv2, wt2) = (tb.clone(), qs.clone(), wvars.clone(), wterm.clone());
+        let base2 = base.clone();
+        cs.add(&tb, re, qs, format!("reparse of {}", pretty_prog(&base)), "reparse", n_operands(&wchain), move |obs| {
+            set_table(&tb2);
+            let printed = match observe(&base2, &[Query::Unparse]).1.pop() { Some(Obs::Str(s)) => s, _ => String::new() };
+            if printed.contains('§') { return (None, "printed text contains a folded non-literal value".into()) }
+            expect_value(&tb2, &wt2, &wv2, obs, &qs2)
+        });
+    }
+    cs
+}
+
+fn wrap_un(signs: &[usize], t: Term) -> Term { signs.iter().rev().fold(t, |acc, k| tun(*k, acc)) }
+fn tun(k: usize, t: Term) -> Term { Term::Un(k, Box::new(t)) }
+fn tbin(k: usize, a: Term, b: Term) -> Term { Term::Bin(k, Box::new(a), Box::new(b)) }
+/// C13: lexical families built from the table's names
+pub fn c13(a: &Args) -> CaseSet {
+    let mut cs = CaseSet::default();
+    let mut r = Rng::new(a.seed ^ 0x13);
+    let tables = vec![
+        std_tables()[0].clone(), std_tables()[3].clone(),
+        vec![OpSpec::bin_un("+", 0, false), OpSpec::bin_un("-", 0, false), OpSpec::bin("*", 1, false), OpSpec::un("l"), OpSpec::un("lo"), OpSpec::un("log"), OpSpec::un("log2"), OpSpec::un("log10"),
+             OpSpec::cst("PI"), OpSpec::cst("π"), OpSpec::cst("E"), OpSpec::un("exp"), OpSpec::un("sin"), OpSpec::bin("<", 0, false), OpSpec::bin("<=", 0, false), OpSpec::bin("<<", 2, false), OpSpec::un("α")],
+    ];
+    let lit = |s: &str| Term::Lit(s.to_string());
+    type Fam = (String, Option<(Term, Vec<String>)>, &'static str);
+    for round in 0..a.n.max(1) {
+        for tb in &tables {
+            // (text, expected value over sorted vars, expected vars) built by construction
+            let mut fam: Vec<Fam> = vec![];
+            let ok = |t: Term, v: Vec<String>| Some((t, v));
+            for (k, o) in tb.iter().enumerate() {
+                if o.bin.is_some() { continue }     // the claim is about unary-only operators and constants
+                let name = o.repr.clone();
+                if is_alpha_name(&name) {
+                    for ext in ["4", "x", "_", "α", "Z9"] {
+                        let w = format!("{name}{ext}");
+                        // skip words that some other table entry decides: a binary-capable name that is a prefix
+                        // (no look-ahead for those), or a longer name that matches the word
+                        if tb.iter().any(|p| p.bin.is_some() && w.starts_with(p.repr.as_str())) { continue }
+                        if tb.iter().any(|p| p.repr.chars().count() > name.chars().count() && w.starts_with(p.repr.as_str())) { continue }
+                        fam.push((w.clone(), ok(Term::Var(0), vec![w.clone()]), "extended-name-is-variable"));
+                        fam.push((format!("1+{w}*2"), ok(tbin(0, lit("1"), tbin(2, Term::Var(0), lit("2"))), vec![w]), "extended-name-is-variable"));
+                    }
+                }
+                if o.unary {
+                    fam.push((format!("{name} 4"), ok(tun(k, lit("4")), vec![]), "exact-name-applies"));
+                    fam.push((format!("{name}(4)"), ok(tun(k, lit("4")), vec![]), "exact-name-applies"));
+                    fam.push((format!("{name}({{q}})"), ok(tun(k, Term::Var(0)), vec!["q".into()]), "exact-name-applies"));
+                    fam.push((format!("{name} {name} 4"), ok(tun(k, tun(k, lit("4"))), vec![]), "exact-name-applies"));
+                }
+                if o.constant {
+                    fam.push((name.clone(), ok(Term::Cst(k), vec![]), "exact-name-applies"));
+                    fam.push((format!("({name})"), ok(Term::Cst(k), vec![]), "exact-name-applies"));
+                    fam.push((format!("{name} + 1"), ok(tbin(0, Term::Cst(k), lit("1")), vec![]), "exact-name-applies"));
+                }
+                // truncations are variables (unless some name matches a prefix of them)
+                if name.chars().count() > 1 && is_alpha_name(&name) {
+                    let w: String = name.chars().take(name.chars().count() - 1).collect();
+                    if !tb.iter().any(|p| w.starts_with(p.repr.as_str())) {
+                        fam.push((w.clone(), ok(Term::Var(0), vec![w]), "truncated-name-is-variable"));
+                    }
+                }
+            }
+            // sign chains
+            let (plus, minus) = (0usize, 1usize);
+            for n in 1..=5 {
+                let signs: Vec<usize> = (0..n).map(|_| if r.chance(1, 2) { plus } else { minus }).collect();
+                let s: String = signs.iter().map(|k| tb[*k].repr.as_str()).collect();
+                let un = |t: Term| wrap_un(&signs, t);
+                let un_tail = |t: Term| wrap_un(&signs[1..], t);
+                let xy = vec!["x".to_string(), "y".to_string()];
+                fam.push((format!("{s}x"), ok(un(Term::Var(0)), vec!["x".into()]), "sign-chain"));
+                fam.push((format!("({s}x)"), ok(un(Term::Var(0)), vec!["x".into()]), "sign-chain"));
+                // after an operand or a closing parenthesis the first sign is binary, the rest unary
+                fam.push((format!("y{s}x"), ok(tbin(signs[0], Term::Var(1), un_tail(Term::Var(0))), xy.clone()), "sign-chain"));
+                fam.push((format!("(y){s}x"), ok(tbin(signs[0], Term::Var(1), un_tail(Term::Var(0))), xy.clone()), "sign-chain"));
+                fam.push((format!("2*{s}x"), ok(tbin(2, lit("2"), un(Term::Var(0))), vec!["x".into()]), "sign-chain"));
+            }
+            // literal spellings
+            for l in ["1", "12", "1.5", ".5", "5.", "0.0", "007", "12.375"] {
+                fam.push((l.to_string(), ok(lit(l), vec![]), "literal"));
+                fam.push((format!("{l}+x"), ok(tbin(0, lit(l), Term::Var(0)), vec!["x".into()]), "literal"));
+            }
+            for l in [".", "1.2.3", "1..2", "..", "1.2.", ".5."] { fam.push((l.to_string(), None, "bad-literal")); }
+            // braces
+            for b in ["x", " x ", "1", "sin", "+", "a+b", "(", "👍 é", "", "PI", "x y z"] {
+                fam.push((format!("{{{b}}}"), ok(Term::Var(0), vec![b.to_string()]), "braces"));
+                fam.push((format!("2*{{{b}}}"), ok(tbin(2, lit("2"), Term::Var(0)), vec![b.to_string()]), "braces"));
+            }
+            fam.push(("{x".into(), ok(Term::Var(0), vec!["x".into()]), "braces"));
+            if round > 0 { // only a random subset in later rounds, with whitespace
+                fam.retain(|_| r.chance(1, 3)); for f in fam.iter_mut() { if !f.0.contains('{') { f.0 = format!(" {} ", f.0) } }
+            }
+            for (text, exp, family) in fam {
+                let prog = match r.below(3) { 0 => Prog::Flat(text.clone()), 1 => Prog::FlatWo(text.clone()), _ => Prog::Deep(text.clone()) };
+                match exp {
+                    Some((want, vars)) => { let nv = vars.len(); add_expect(&mut cs, tb, prog, vec![Query::Vars, Query::Eval(nv)], text.clone(), family, 2, &want, &vars); }
+                    None => { cs.add(tb, prog, vec![Query::Vars], text.clone(), family, 2, |obs| (Some(obs[0] == Obs::E), pretty_obs(&obs[0]))); }
+                }
+            }
+        }
+    }
+    cs
+}
+
+/// C15: consuming evaluation vs borrowing evaluation on repetition patterns
+pub fn c15(a: &Args) -> CaseSet {
+    let mut cs = CaseSet::default();
+    let mut r = Rng::new(a.seed ^ 0x15);
+    let tb = std_tables()[1].clone();
+    let names = ["a", "b", "c", "d", "e"];
+    let mut words: Vec<Vec<usize>> = vec![];
+    // all words over k letters up to a length (exhaustive for small ones)
+    for k in 1..=3usize { for len in 1..=(if a.thorough { 6 } else { 5 }) { let total = k.pow(len as u32); for code in 0..total { let mut c = code; let w: Vec<usize> = (0..len).map(|_| { let x = c % k; c /= k; x }).collect(); if (0..k).all(|l| w.contains(&l)) { words.push(w) } } } }
+    for _ in 0..a.n { let k = 1 + r.below(5); let len = 1 + r.below(40); words.push((0..len).map(|_| r.below(k)).collect()); }
+    for (wi, w) in words.iter().enumerate() {
+        let ops = ["+", "*", "-", "/", "&"];
+        let mut text = String::new();
+        for (i, l) in w.iter().enumerate() { if i > 0 { text.push_str(ops[r.below(ops.len())]); } if r.chance(1, 6) { text.push_str("2*") } if r.chance(1, 8) { text.push_str("sin ") } text.push_str(names[*l]); }
+        let mut vars: Vec<String> = w.iter().map(|l| names[*l].to_string()).collect(); vars.sort(); vars.dedup();
+        let n = vars.len();
+        let occ: Vec<u64> = vars.iter().map(|v| w.iter().filter(|l| names[**l] == v).count() as u64).collect();
+        let prog = if wi % 2 == 0 { Prog::Flat(text.clone()) } else { Prog::FlatWo(text.clone()) };
+        let qs = vec![Query::Eval(n), Query::EvalVec(n), Query::EvalVec(n + 1), Query::EvalVec(n.saturating_sub(1))];
+        cs.add(&tb, prog, qs, text.clone(), if wi < words.len() - a.n { "exhaustive-words" } else { "random-words" }, w.len(), move |obs| {
+            match (&obs[0], &obs[1]) {
+                (Obs::T(t), Obs::TC(t2, cl)) => {
+                    let want_cl: Vec<u64> = occ.iter().map(|o| o - 1).collect();
+                    if t != t2 { (Some(false), format!("eval_vec {} differs from eval {}", t2.pretty(), t.pretty())) }
+                    else if t2.has_dflt() { (Some(false), "a moved-out placeholder reached an operator".into()) }
+                    else if *cl != want_cl { (Some(false), format!("clone counts {cl:?}, expected {want_cl:?} (occurrences - 1)")) }
+                    else if obs[2] != Obs::E || (n > 0 && obs[3] != Obs::E) { (Some(false), "arity of eval_vec".into()) }
+                    else { (Some(true), String::new()) }
+                }
+                _ => (Some(false), format!("{} / {}", pretty_obs(&obs[0]), pretty_obs(&obs[1]))),
+            }
+        });
     }
     cs
 }
